@@ -1,4 +1,107 @@
-(* C08 — placeholder until Proofs/Path_proofs.v lands *)
-From TsRs Require Import Base.Str Base.Outcome Model.Path.
-Theorem C08_placeholder : forall a : comp, comp_eqb a a = true.
-Proof. intros [| | |n]; cbn; auto. apply str_eqb_refl. Qed.
+(* C08 — import specifiers resolve to the dependency's file for every path pair.
+   Property theorems only; each is closed by `exact` of a lemma from Proofs/Path_proofs.v. *)
+From TsRs Require Import Base.Str Base.Outcome Model.Path Proofs.Path_proofs.
+
+(* For paths of ANY depth and any component names: if the importing file `from` lies in directory
+   `fdir` (after lexical normalisation against the current directory) and the imported file `to`
+   normalises to `tdir/<stem>.ts`, then the specifier ts-rs writes
+     - is relative (starts with `./` or `../`), contains no backslash,
+     - does not end in `.ts` (ESM off) / ends in `.js` (ESM on),
+     - and, resolved by the TypeScript rules from `fdir`, denotes exactly `tdir/<stem>.ts`.
+   Hypotheses: component names are legal (non-empty, no `/`, not `.`/`..`: guaranteed for every
+   output of `absolute`, lemma C08_absolute_shape), contain no backslash, the stem does not itself
+   end in `.ts` (known class ts_ts_file_name) and the imported file is not an ancestor directory
+   of the importing file (it is a file). *)
+Theorem C08_resolves :
+  forall (esm : bool) (cwd : list str) (from to : str) (fc : list comp) (fname : str)
+         (fdir tdir : list str) (stem : str),
+    names_ok cwd ->
+    components from = fc ++ [Normal fname] ->
+    absolute_comps cwd fc = Ok (Root :: map Normal fdir) ->
+    absolute cwd to = Ok (Root :: map Normal (tdir ++ [stem ++ s_ts])) ->
+    ends_with s_ts stem = false ->
+    names_ok (fdir ++ tdir ++ [stem ++ s_ts]) ->
+    no_backslash (fdir ++ tdir ++ [stem]) ->
+    (forall r, fdir <> tdir ++ [stem ++ s_ts] ++ r) ->
+    exists s, import_path esm cwd from to = Ok s /\
+      is_relative_spec s = true /\
+      ~ In backslash s /\
+      (esm = false -> ends_with s_ts s = false) /\
+      (esm = true -> ends_with s_js s = true) /\
+      resolve esm fdir s = Some (tdir ++ [stem ++ s_ts]).
+Proof. exact import_path_resolves. Qed.
+Print Assumptions C08_resolves.
+
+(* The same-file test of generate_imports is exact: it fires iff both paths denote one file. *)
+Theorem C08_same_file :
+  forall (esm : bool) (cwd : list str) (from to : str) (fc : list comp) (fname : str)
+         (fdir tdir : list str) (stem : str),
+    names_ok cwd ->
+    components from = fc ++ [Normal fname] ->
+    absolute_comps cwd fc = Ok (Root :: map Normal fdir) ->
+    absolute cwd to = Ok (Root :: map Normal (tdir ++ [stem ++ s_ts])) ->
+    ends_with s_ts stem = false ->
+    names_ok (fdir ++ tdir ++ [stem ++ s_ts]) ->
+    no_backslash (fdir ++ tdir ++ [stem]) ->
+    (forall r, fdir <> tdir ++ [stem ++ s_ts] ++ r) ->
+    forall fstem : str,
+    fname = fstem ++ s_ts ->
+    ends_with s_ts fstem = false ->
+    ends_with s_js stem = false ->
+    ends_with s_js fstem = false ->
+    name_ok fname = true ->
+    forall s, import_path esm cwd from to = Ok s ->
+      (is_same_file from s = true <-> (fdir = tdir /\ fstem = stem)).
+Proof. exact same_file_exact. Qed.
+Print Assumptions C08_same_file.
+
+(* The core, at component level: walking the computed relative path from the base directory
+   arrives at the target, for paths of any depth. *)
+Theorem C08_diff_walk :
+  forall p b : list str, names_ok p -> names_ok b ->
+    walk b (split_slash (render (diff_comps (map Normal p) (map Normal b)))) = Some p.
+Proof. exact diff_walk. Qed.
+Print Assumptions C08_diff_walk.
+
+(* Base-directory independence: a common prefix (any spelling of the base directory normalises to
+   one) cancels. *)
+Theorem C08_base_independent :
+  forall pre a b, diff_comps (pre ++ a) (pre ++ b) = diff_comps a b.
+Proof. exact diff_common_prefix. Qed.
+Print Assumptions C08_base_independent.
+
+(* `absolute` yields a root followed by legal normal names only, never panics, is idempotent, and
+   rejects every path that climbs above the root (also used by C17). *)
+Theorem C08_absolute_shape :
+  forall cwd cs r, names_ok cwd -> comps_wf cs -> absolute_comps cwd cs = Ok r ->
+    exists ns, r = Root :: map Normal ns /\ names_ok ns.
+Proof. exact absolute_shape. Qed.
+Print Assumptions C08_absolute_shape.
+
+Theorem C08_components_wf : forall s, comps_wf (components s).
+Proof. exact components_wf. Qed.
+Print Assumptions C08_components_wf.
+
+Theorem C08_absolute_idempotent :
+  forall cwd' ns, absolute_comps cwd' (Root :: map Normal ns) = Ok (Root :: map Normal ns).
+Proof. exact absolute_idempotent. Qed.
+Print Assumptions C08_absolute_idempotent.
+
+Theorem C08_absolute_above_root :
+  forall cwd k rest, (length cwd < k)%nat ->
+    absolute_comps cwd (repeat Parent k ++ rest) = Err err_invalid_path.
+Proof. exact absolute_above_root. Qed.
+Print Assumptions C08_absolute_above_root.
+
+Theorem C08_absolute_never_panics : forall cwd cs m, absolute_comps cwd cs <> Panic m.
+Proof. exact absolute_never_panics. Qed.
+Print Assumptions C08_absolute_never_panics.
+
+(* Non-vacuity: a concrete pair of files in sibling directories meets every hypothesis. *)
+Example C08_nonvacuous :
+  let cwd := [lit "home"; lit "u"] in
+  import_path false cwd (lit "./bindings/a/Foo.ts") (lit "./bindings/b/Bar.ts") = Ok (lit "../b/Bar") /\
+  resolve false [lit "home"; lit "u"; lit "bindings"; lit "a"] (lit "../b/Bar")
+    = Some [lit "home"; lit "u"; lit "bindings"; lit "b"; lit "Bar.ts"] /\
+  absolute cwd (lit "./bindings/b/Bar.ts") = Ok (Root :: map Normal [lit "home"; lit "u"; lit "bindings"; lit "b"; lit "Bar.ts"]).
+Proof. vm_compute. repeat split. Qed.
